@@ -9,7 +9,7 @@
    schedule (the disturbed ones included), satisfies the monitors of C01/C02/C03/C06/C10
    and never ends in a panic (Props/C01.v ... C10.v, C04.v: the *_bytes theorems). *)
 From Passage Require Import Lib.Bytes Codec.VarInt Conn.Types Conn.Prog Conn.Sem1 Conn.Sem2 Conn.Reader Conn.ReaderProofs
-  Conn.Sem2Witness Conn.RefineDefs Conn.RefineProofs Conn.RefineCalmProofs.
+  Conn.Sem2Witness Conn.RefineDefs Conn.RefineProofs Conn.RefineCalmProofs Conn.SendQueue Conn.SendQueueProofs.
 
 (* feeding the reader piecewise is feeding it the concatenation *)
 Theorem C08_reader_monoid : forall max a st b,
@@ -143,6 +143,31 @@ Example C08_calm_nonvacuous :
   /\ calm w_o w_cfg w_e k4_prefix_split = false.
 Proof. vm_compute. repeat split; reflexivity. Qed.
 
+(* ---- the write side (Conn/SendQueue.v: send_packet's frame queue after the K3 repair) ----
+   For every sequence of frames handed to send_packet, every acceptance pattern of the stream
+   (refused, partial, whole) and every placement of dropped futures: the bytes on the wire followed
+   by the bytes still queued are exactly the frames, in order - nothing is lost, torn or interleaved;
+   when the queue has drained the wire is exactly the frames.  The pre-repair write_all is refuted by
+   the K3 schedule (3 bytes of a Keep Alive accepted, the future dropped, the next packet follows). *)
+Theorem C08_frames_intact : forall ops, wire (wrun ops) ++ unsent (wrun ops) = sentlog (wrun ops).
+Proof. exact frames_intact. Qed.
+
+Theorem C08_wire_is_prefix : forall ops, exists rest, sentlog (wrun ops) = wire (wrun ops) ++ rest.
+Proof. exact wire_is_prefix. Qed.
+
+Theorem C08_drained_complete : forall ops, unsent (wrun ops) = [] -> wire (wrun ops) = sentlog (wrun ops).
+Proof. exact drained_complete. Qed.
+
+Theorem C08_old_send_tears :
+  o_wire (orun k3_ops) = [9; 4; 0; 2; 11; 5]
+  /\ o_log (orun k3_ops) = [9; 4; 0; 0; 0; 0; 0; 0; 0; 7; 2; 11; 5]
+  /\ wire (wrun k3_ops) = [9; 4; 0; 0; 0; 0; 0; 0; 0; 7; 2; 11; 5].
+Proof. exact old_send_tears. Qed.
+
+Print Assumptions C08_frames_intact.
+Print Assumptions C08_wire_is_prefix.
+Print Assumptions C08_drained_complete.
+Print Assumptions C08_old_send_tears.
 Print Assumptions C08_refines_calm.
 Print Assumptions C08_refines_calm_tr.
 Print Assumptions C08_atomic_calm.
